@@ -85,6 +85,10 @@ CONFORMING = [
     "<!DOCTYPE html><html lang=en><head><meta charset=utf-8><title>t</title><link rel=stylesheet href=x></head><body><!--c--><h1>%s</h1><a href=\"?a=1&amp;b=2\">x</a></body></html>",
     "<!DOCTYPE html><title>t</title><ruby>%s<rt>a<rp>b</ruby><form><input name=a><button>b</button></form>",
     "<!DOCTYPE html><title>t</title><frameset><frame src=x><noframes>%s</noframes></frameset>",
+    "<!DOCTYPE html><title>t</title><ul><li><p>%s</ul><ol><li><dl><dt>a<dd><p>b</dl></ol>",
+    "<!DOCTYPE html><title>t</title><select><optgroup label=l><option>%s</select><table><tr><td><p>x<tr><th><p>y</table>",
+    "<!DOCTYPE html><title>t</title><ruby>a<rt>%s<rp>(</ruby><dl><dt>t<dd><p>x</dl>",
+    "<!DOCTYPE html><title>t</title><div><p>%s<div><li><p>x</div></div><button><p>y</button>",
 ]
 NC = len(CONFORMING)
 
